@@ -8,7 +8,7 @@ i = invalid (bit 1), o = occluded (bit 8), m = mismatched (bit 9):
               offset 1 (window 3): every interior of shape 2x2, 1x3, 3x1, 2x3 over {a,b,i,o,m} inside a frame of
               border pixels (flag 1), as cross-checking leaves them;
   * thorough: + every 2x4 and every 3x3 map over {a,b,i,o,m}; every 3x3 interior over {a,i,o,m} at offset 1; every
-              3x4 map over {a,b,o,m} with at most 3 flagged pixels;
+              3x4 map over {a,b,o,m} with at most 4 flagged pixels;
   * machine level: real pipelines whose validation step has `interpolated_disparity`, compared with the same
     pipeline without it (= the input of the filling) and with a direct call of the method on that input.
 Oracle: invariants of the statement (mc/ref/fill.py) - untouched pixels bit for bit, flag arithmetic, finite value
@@ -79,7 +79,7 @@ SPACES = {
     "2x4/4": ((2, 4), "aiom", 0, None),
     "2x3/5": ((2, 3), "abiom", 0, None),
     "o1-3x3/4": ((3, 3), "aiom", 1, None),
-    "3x4/4<=3": ((3, 4), "abom", 0, 3),
+    "3x4/4<=4": ((3, 4), "abom", 0, 4),
     "o1-2x2/5": ((2, 2), "abiom", 1, None),
     "o1-1x3/5": ((1, 3), "abiom", 1, None),
     "o1-3x1/5": ((3, 1), "abiom", 1, None),
@@ -116,7 +116,7 @@ def spaces(tier, seed):
             sp("all 2x4 maps over 5 symbols", 2, "2x4/5"),
             sp("all 3x3 maps over 5 symbols (two valid values)", 2, "3x3/5"),
             sp("offset 1: all 3x3 interiors over 4 symbols inside a border frame", 2, "o1-3x3/4"),
-            sp("all 3x4 maps over {valid a, valid b, occluded, mismatched} with <= 3 flagged pixels", 2, "3x4/4<=3"),
+            sp("all 3x4 maps over {valid a, valid b, occluded, mismatched} with <= 4 flagged pixels", 3, "3x4/4<=4"),
         ]
     return out
 
